@@ -22,7 +22,8 @@ RULE = ("workloads = server in {Simple, Pooled with default pool, Pooled with us
         "carrying a unique token that the reply must echo; all jsonrpclib modules under line-level yield injection; a "
         "stall sweep parking a pool worker / the accept thread at each line of the pool's worker loop, enqueue and "
         "thread creation while requests arrive around the workers' idle timeout. "
-        "Lifecycles = histories over {construct, serve in a thread, handle_request, shutdown, server_close}: close after "
+        "Lifecycles (also on user-supplied pools whose bounded task queue is smaller than their number of permanent workers) "
+        "= histories over {construct, serve in a thread, handle_request, shutdown, server_close}: close after "
         "serving, close with in-flight gate-blocked requests released afterwards, close without ever serving, repeated "
         "close, server_close alone while serving. Oracles: reply token = sent token, each token executed exactly once, "
         "requests after a bad one are served, lifecycle calls return (frozen-state witness otherwise), listening socket "
@@ -43,6 +44,10 @@ LEVEL_TEXT = ("Real Simple and Pooled servers on TCP and Unix sockets are driven
 LEVEL_NOTE = "Trusted: probe log, token comparison, thread-name based worker liveness; bounded-progress restatement of 'always terminates'."
 
 SERVER_CELLS = [("simple", None), ("pooled", None), ("pooled", 1), ("pooled", 2), ("pooled", 5)]
+# user-supplied pools with a BOUNDED task queue smaller than their number of (permanent) workers: size -> queue_size.
+# Only the lifecycles use them (at most 2 requests in flight): a bounded queue refuses work beyond its capacity by design
+BOUNDED_QUEUE = {4: 1, 3: 2}
+LIFECYCLE_CELLS = SERVER_CELLS + [("pooled", 4), ("pooled", 3)]
 FAMILIES = ["tcp", "unix"]
 
 
@@ -71,9 +76,13 @@ class SrvUnderTest(object):
         self.preexisting = set(threading.enumerate())
         self.fx = dm.Fixture(registry(None), version=2.0)
         self.user_pool = None
+        if psize in BOUNDED_QUEUE:
+            # a long idle timeout: these workers only wake up when the pool wakes them
+            pool_timeout = 30
         if kind == "pooled" and psize is not None:
             # sizes 2 and 5 keep min_threads = max_threads: their workers only terminate if the server stops the pool
             self.user_pool = tp.ThreadPool(psize, psize if (psize > 1 and pool_timeout >= 0.05) else 0,
+                                           queue_size=BOUNDED_QUEUE.get(psize, 0),
                                            timeout=pool_timeout, logname=self.poolname)
             self.user_pool.start()
         self.srv = servers.Srv(kind, family, self.fx, pool=self.user_pool)
@@ -535,7 +544,7 @@ def run(ctx):
     # 2. lifecycles
     n = 0
     for rep in range(ctx.pick(1, 16)):
-        for cell, fam in combos:
+        for cell, fam in [(c, f) for c in LIFECYCLE_CELLS for f in FAMILIES]:
             for lc in LIFECYCLES:
                 n += 1
                 if not ctx.mine(n):
